@@ -10,6 +10,7 @@ Definition run (x : sexp) : sexp :=
   if (100 <=? t) && (t <? 200) then run_text t a
   else if (200 <=? t) && (t <? 300) then run_scope t a
   else if (300 <=? t) && (t <? 400) then run_ports t a
+  else if (t =? 403) then run_dznfile t a
   else if (400 <=? t) && (t <? 500) then run_json t a
   else SL [SI (-1)].
 
